@@ -676,7 +676,7 @@ def fixed_cases():
 
 def build_cases(ctx):
     rng = ctx.rng
-    n = 5 if ctx.tier == "quick" else 130
+    n = 5 if ctx.tier == "quick" else 110
     cases = fixed_cases()
     for kind in CELL_KINDS:
         for _ in range(n if kind != "triclinic" else 3 * n):
@@ -685,7 +685,7 @@ def build_cases(ctx):
         for _ in range(max(2, n // 4)):
             cases.append(gen_case(rng, kind, ctx.tier))
     # cells under deformation: one component changes per frame (see gen_cell_series)
-    for _ in range(3 if ctx.tier == "quick" else 60):
+    for _ in range(3 if ctx.tier == "quick" else 40):
         cases.append(gen_case(rng, "series", ctx.tier))
     return cases
 
